@@ -9,7 +9,7 @@ let run _args =
   run_cases (fun fs ->
     match S.split_on_char ';' (L.hd fs) with
     | [kind; pos; cfg] ->
-      let p = parse_pos pos in
+      let p = parse_pos (L.hd (S.split_on_char '@' pos)) in
       (match S.trim kind, words cfg with
        | "pn", [mn; pre; md] ->
          let ((((root, st), res), mv), why) =
@@ -32,6 +32,18 @@ let run _args =
          let t = s.Dfpn.dst in
          let l2 = S.concat " " (L.map string_of_n
            [e.Dfpn.d_phi; e.Dfpn.d_delta; work; t.Dfpn.ds_rep; t.Dfpn.ds_term; t.Dfpn.ds_solved; t.Dfpn.ds_hits; t.Dfpn.ds_miss]) in
+         (l1, Some l2, None)
+       | "dfpnseq", [entries; att] ->
+         (* one solver, the positions (separated by @) in a row: L1/L2 are the per-call results joined by " , " *)
+         let ps = L.map parse_pos (S.split_on_char '@' pos) in
+         let a = (match att with "W" -> 1 | "B" -> 2 | _ -> 0) in
+         let outs = PnInst.dfpn_run_seq (Lazy.force lfuel) (Lazy.force dfuel) (n_of_int a) (nat_of_int (int_of_string entries)) ps in
+         if L.exists (fun (((s, _), _), _) -> s.Dfpn.dfuel_out) outs then ("MODEL-OUT-OF-FUEL", None, None) else
+         let l1 = S.concat " , " (L.map (fun (((_, e), _), res) -> verdict (int_of_n res) ^ " " ^ enc_move e.Dfpn.d_pv) outs) in
+         let l2 = S.concat " , " (L.map (fun (((s, e), work), _) ->
+           let t = s.Dfpn.dst in
+           S.concat " " (L.map string_of_n
+             [e.Dfpn.d_phi; e.Dfpn.d_delta; work; t.Dfpn.ds_rep; t.Dfpn.ds_term; t.Dfpn.ds_solved; t.Dfpn.ds_hits; t.Dfpn.ds_miss])) outs) in
          (l1, Some l2, None)
        | _ -> failwith "c06: bad configuration")
     | _ -> failwith "c06: bad input")
